@@ -164,6 +164,9 @@ def run(fx, rep):
             elif CHRONO_OP.match(rc):
                 rep.violation('R3', 'panicking-op/%s/%s' % (tr.rsplit('::', 1)[-1], opkey(t)), F.loc_of(t['span']),
                               'chrono operator %s in impl %s for Value panics on overflow (e.g. dmax + dmax, tmin - duration(\'1h\'))' % (rc, tr))
+            if re.match(r'^chrono::TimeDelta::num_(nanoseconds|microseconds|milliseconds)$', F.norm_callee(t) or ''):
+                rep.violation('R3', 'narrow-arithmetic/%s/%s' % (tr.rsplit('::', 1)[-1], F.norm_callee(t).rsplit('::', 1)[-1]), F.loc_of(t['span']),
+                              'duration %s goes through %s: an i64 count cannot hold every TimeDelta (nor -MIN), so representable results such as -1ns - MIN are reported as overflow; use chrono\'s checked_add/checked_sub on the durations' % (tr.rsplit('::', 1)[-1], F.norm_callee(t)))
             if re.match(r'^chrono::(TimeDelta|DateTime)::checked_(add|sub)(_signed)?$', F.norm_callee(t) or ''):
                 nchk += 1
                 # None must become an error: result flows to ok_or / ok_or_else
